@@ -711,8 +711,29 @@ func ruleC06KeyCacheIndexExact(c *Ctx) {
 		ap := accessPath(v)
 		return strings.HasSuffix(ap, ".ID") || (strings.HasPrefix(ap, "P:") && !strings.Contains(ap, "."))
 	}
-	isCacheKeyCall := func(v ssa.Value) (bool, string) {
+	var isCacheKeyCall func(v ssa.Value) (bool, string)
+	helperDepth := 0
+	isCacheKeyCall = func(v ssa.Value) (bool, string) {
 		cv, ok := resolve(v).(*ssa.Call)
+		if ok && staticCallee(cv) != ck {
+			// a helper of this package that returns such an index on every return
+			if h := staticCallee(cv); h != nil && h.Blocks != nil && h.Pkg != nil && h.Pkg.Pkg.Path() == pkgApp && helperDepth < 2 && h.Signature.Results().Len() == 1 {
+				helperDepth++
+				defer func() { helperDepth-- }()
+				for _, r := range returnsOf(h) {
+					vals := []ssa.Value{returnedValue(r, 0)}
+					if phi, isPhi := resolve(vals[0]).(*ssa.Phi); isPhi {
+						vals = phi.Edges
+					}
+					for _, rv := range vals {
+						if good, why := isCacheKeyCall(rv); !good {
+							return false, why
+						}
+					}
+				}
+				return true, ""
+			}
+		}
 		if !ok || staticCallee(cv) != ck {
 			return false, "the index is not a cacheKey(...) call: " + describeOperand(v)
 		}
